@@ -70,11 +70,22 @@ def one(ctx, pts, cfg, family):
     try:
         w = [int(v) for v in np.asarray(pp.filter_worst_knees(pr, ka)).tolist()]
         c = [int(v) for v in np.asarray(pp.filter_corner_knees(pr, np.array(w, dtype=int), t=cfg['tc'])).tolist()]
-        k = [int(v) for v in np.asarray(pp.filter_clusters(pr, np.array(c, dtype=int), c12.link_fn(cfg['linkage']), cfg['tl'], getattr(kr.ClusterRanking, cfg['mode']))).tolist()]
+        if cfg['mode'] == 'corners':
+            k = [int(v) for v in np.asarray(pp.filter_clusters_corners(pr, np.array(c, dtype=int), c12.link_fn(cfg['linkage']), cfg['tl'])).tolist()]
+        else:
+            k = [int(v) for v in np.asarray(pp.filter_clusters(pr, np.array(c, dtype=int), c12.link_fn(cfg['linkage']), cfg['tl'], getattr(kr.ClusterRanking, cfg['mode']))).tolist()]
         o = [int(v) for v in np.asarray(rdp.mapping(np.array(k, dtype=int), np.array(red), np.array(rem))).tolist()] if len(k) else []
+        ev = None
+        if cfg.get('final') == 'even' and np.ptp(pts[:, 1]) > 0:
+            ev = [int(v) for v in np.asarray(pp.add_points_even(pts, np.array(red), np.array(k, dtype=int), np.array(rem), cfg['tx'], cfg['ty'], bool(cfg['extremes']))).tolist()]
     except Exception as e:
         ctx.fail('predicate', 'completes(filters/mapping)', site, case, dict(error=repr(e)[:200], knees=knees)); return
     stages = dict(knees=knees, worst=w, corner=c, cluster=k, mapped=o)
+    if ev is not None:
+        stages['even'] = ev
+        yo = pts[:, 1]
+        if any(a >= b for a, b in zip(ev, ev[1:])) or any(not (0 <= q < n) for q in ev) or any(yo[b] > yo[a] for a, b in zip(ev, ev[1:])):
+            ctx.fail('predicate', 'add_points_even-output-strictly-increasing-valid-heights-non-increasing', site, case, stages); return
     for a, b in (('worst', 'knees'), ('corner', 'worst'), ('cluster', 'corner')):
         if not is_subseq(stages[a], stages[b]):
             ctx.fail('predicate', f'{a}-is-a-subsequence-of-{b}', site, case, stages); return
@@ -96,7 +107,7 @@ def one(ctx, pts, cfg, family):
         ctx.fail('correspondence', 'worstFilter (stage 3)', site, case, dict(impl=w, model=mw))
     if mc != c:
         ctx.fail('correspondence', 'cornerFilter (stage 4)', site, case, dict(impl=c, model=mc))
-    if len(c) >= 2 and (cfg['mode'] != 'hull' or min(c) >= 1):
+    if len(c) >= 2 and cfg['mode'] != 'corners' and (cfg['mode'] != 'hull' or min(c) >= 1):
         mkf = c12.model_filter(ctx, pr, c, cfg['linkage'], cfg['tl'], cfg['mode'])
         if mkf is not None:
             ctx.corr_checked += 1
@@ -108,8 +119,11 @@ def one(ctx, pts, cfg, family):
         if mo != o:
             ctx.fail('correspondence', 'mapping (stage 6)', site, case, dict(impl=o, model=mo))
     # ---- the WHOLE pipeline in one model run (threshold RDP, rank modes), every oracle asked lazily in its own space
-    if cfg['simplifier'] == 'rdp' and cfg['mode'] != 'hull' and m <= 120 and n <= 400:
+    if cfg['simplifier'] == 'rdp' and cfg['mode'] not in ('hull', 'corners') and m <= 120 and n <= 400:
         whole_pipeline(ctx, pts, cfg, stages, red, site, case, t2)
+    # ---- ... and for EVERY configuration (5 simplifiers x rank/hull/corners x mapping/add_points_even): pipelineCfgM, the subject of C08F
+    if m <= 120 and n <= 400 and (cfg['mode'] != 'hull' or not c or min(c) >= 1):
+        whole_pipeline_cfg(ctx, pts, cfg, stages, red, site, case, t2)
     ctx.count(family + ':' + cfg['simplifier'] + ':' + cfg['detector'] + ':' + cfg['mode'], n=n,
               nontrivial_key=(str(sorted(cfg.items(), key=str)), pts.tobytes()) if len(c) >= 2 else None,
               sample=dict(config=cfg, n=n, reduced_points=m, **{kk: vv[:10] for kk, vv in stages.items()}))
@@ -173,6 +187,109 @@ def whole_pipeline(ctx, pts, cfg, stages, red, site, case, t2):
         ctx.tag('whole-pipeline-agrees')
 
 
+def whole_pipeline_cfg(ctx, pts, cfg, stages, red, site, case, t2):
+    import kneeliverse.knee_ranking as kr
+    import kneeliverse.postprocessing as pp
+    from . import c14
+    sc = cfg['scfg']
+    simp = cfg['simplifier']
+    isr2 = '1' if sc.get('cost') == 'r2' else '0'
+    if simp == 'min_point_rdp':
+        orc1 = rdpfam.Oracles(pts, 'shortest', 'smape', 'segment')
+        tok = 'minpoint:0:%d:%s' % (sc['m'], ';'.join(core.rat(t) for t in sc['ts']))
+    else:
+        orc1 = rdpfam.Oracles(pts, sc.get('dist', 'shortest'), sc.get('cost', 'smape'), sc.get('order', 'segment'))
+        tok = {'rdp': lambda: f"rdp:{isr2}:{core.rat(sc['t'])}", 'grdp': lambda: f"grdp:{isr2}:{core.rat(sc['t'])}", 'rdp_fixed': lambda: f"fixed:{sc['k']}",
+               'mp_grdp': lambda: f"mp:{isr2}:{core.rat(sc['t'])}:{sc['m']}"}[simp]()
+    pr0 = pts[red]
+    hull = c12.lower_hull(ctx, pr0) if cfg['mode'] == 'hull' else []
+    state = {}
+    tie = {'v': False}
+
+    def answer(name, args):
+        if name in ('cst', 'dst', 'key', 'gcs'):
+            return orc1.answer(name, args)
+        if name == 'reduced':
+            state['red'] = core.parse_nats(args[0])
+            state['pr'] = pts[state['red']]
+            state['orc2'] = detfam.DetOracles(state['pr'])
+            return '0'
+        pr = state['pr']
+        if name == 'hts':
+            return core.rats(pr[:, 1])
+        if name == 'ious':
+            ks = core.parse_nats(args[0])
+            return core.rats([c13.iou_of(pr, q) if 1 <= q and q + 1 < len(pr) else 0.0 for q in ks])
+        if name == 'labels':
+            ks = core.parse_nats(args[0])
+            return core.nats(np.asarray(c12.link_fn(cfg['linkage'])(pr[np.array(ks, dtype=int)], cfg['tl'])).tolist())
+        if name == 'scores':
+            g = core.parse_nats(args[0])
+            v = [float(u) for u in kr.smooth_ranking(pr, np.array(g, dtype=int), getattr(kr.ClusterRanking, cfg['mode']))]
+            if len(set(v)) < len(v) or any(not math.isfinite(u) for u in v):
+                tie['v'] = True
+                v = [0.0 if not math.isfinite(u) else u for u in v]
+            return core.rats(v)
+        if name == 'hull':
+            return core.nats(hull)
+        if name == 'herrs':
+            g = core.parse_nats(args[0])
+            hw = [h for h in hull if g[0] <= h <= g[-1]]
+            if len(hw) > 1 and g[0] >= 1 and g[-1] + 1 < len(pr):
+                row = c12.hull_err(pr, g, hw)
+                if len(set(row)) < len(row) or any(not math.isfinite(u) for u in row):
+                    tie['v'] = True
+                    row = [0.0 if not math.isfinite(u) else u for u in row]
+            else:
+                row = [0.0] * len(g)
+            return core.rats(row)
+        if name == 'areas':
+            g = core.parse_nats(args[0])
+            v = [float(u) for u in pp.rank_corners_triangle(pr, np.array(g, dtype=int))]
+            if any(not math.isfinite(u) for u in v) or sorted(v)[-1:] * 2 == sorted(v)[-2:]:
+                tie['v'] = True
+                v = [0.0 if not math.isfinite(u) else u for u in v]
+            return core.rats(v)
+        if name == 'hts0':
+            return core.rats(pts[:, 1])
+        if name in ('wide', 'npts'):
+            if 'dec' not in state:
+                r_ = state['red']
+                wide, npts, concl, _, _ = c14.decisions(pts, list(zip(r_, r_[1:])), cfg['tx'], cfg['ty'])
+                state['dec'] = (wide, npts)
+                if not concl:
+                    tie['v'] = True
+            return core.nats(state['dec'][0] if name == 'wide' else state['dec'][1])
+        return state['orc2'].answer(name, args)
+    fin = 'map'
+    if 'even' in stages:
+        fin = 'even:1' if cfg['extremes'] else 'even:0'
+    cmode = cfg['mode'] if cfg['mode'] in ('hull', 'corners') else 'rank'
+    try:
+        out = ctx.get_driver().call('pipeline_cfg', [tok, str(len(pts)), cfg['detector'], core.rat(cfg['t1']), str(t2), core.rat(cfg['tc']), cmode, fin], answer)
+    except core.NonFinite:
+        ctx.tag('pipeline-cfg-oracle-nonfinite')
+        return
+    if orc1.nonfinite or (state.get('orc2') and state['orc2'].nonfinite):
+        ctx.tag('pipeline-cfg-oracle-nonfinite')
+        return
+    if tie['v']:
+        ctx.tag('pipeline-cfg-tie(relational)')
+        return
+    ctx.corr_checked += 1
+    if out == ['none']:
+        ctx.fail('correspondence', 'pipelineCfg returned none', site, case, stages)
+        return
+    got = [core.parse_nats(tok_) for tok_ in out]
+    names = ['reduced', 'knees', 'worst', 'corner', 'cluster', 'out']
+    want = [red, stages['knees'], stages['worst'], stages['corner'], stages['cluster'], stages['even'] if 'even' in stages else stages['mapped']]
+    if got != want:
+        bad = next(nm for nm, a, b in zip(names, got, want) if a != b)
+        ctx.fail('correspondence', f'pipelineCfg (any configuration, one model run): first difference at stage {bad}', site, case, dict(model=dict(zip(names, got)), impl=dict(zip(names, want))))
+    else:
+        ctx.tag(f'pipeline-cfg-agrees[{simp},{cmode},{fin.split(":")[0]}]')
+
+
 def rand_cfg(ctx, pts):
     rng = ctx.rng
     n = len(pts)
@@ -187,7 +304,8 @@ def rand_cfg(ctx, pts):
     if s == 'min_point_rdp':
         scfg = dict(m=scfg['m'], ts=[0.01, 0.001, 0.0001])
     return dict(simplifier=s, scfg=scfg, detector=rng.choice(detfam.DETS), t1=rng.choice([0.0, 0.001, 0.01]), t2x=rng.choice([0, 0, 1]),
-                tc=rng.choice([0.33, 0.5, 0.25, 1.0]), linkage=rng.choice(c12.LINK), tl=rng.choice([0.01, 0.05, 0.1, 0.2]), mode=rng.choice(c12.MODES))
+                tc=rng.choice([0.33, 0.5, 0.25, 1.0]), linkage=rng.choice(c12.LINK), tl=rng.choice([0.01, 0.05, 0.1, 0.2]), mode=rng.choice(list(c12.MODES) + ['corners']),
+                final=rng.choice(['map', 'map', 'even']), tx=rng.choice([0.05, 0.1, 0.125, 0.02]), ty=rng.choice([0.05, 0.01, 0.125]), extremes=rng.choice([0, 1]))
 
 
 def run(ctx):
